@@ -240,6 +240,7 @@ func (p *Profile) genOpKind(t *rapid.T, kind string, gs *genState, depth int) Op
 		if p.Cmps {
 			o.Flag = rapid.IntRange(0, NumCmp-1).Draw(t, "cmp")
 		}
+		o.N = rapid.IntRange(0, 1).Draw(t, "nilcmp")
 	case OpRmColl, OpWrite:
 		coll()
 	case OpSnap:
